@@ -249,6 +249,13 @@ def run(ctx):
              "process state (same analysis as C11 R11.1)")
     from rules.rtcommon import private_storage_rule
     private_storage_rule(ctx, "R1.8", "stream bytes")
+    ctx.rule("R1.9", "the stream file starts at offset 0 with this run's header and is never restarted: the stream is "
+             "opened for writing, created, without O_APPEND (the flags reaching open() from ovni_thread_init are "
+             "evaluated); a second ovni_thread_init on an initialised thread, documented as ignored, leaves buffer "
+             "fill, buffer, descriptor and flags untouched and opens / allocates nothing")
+    from rules import round3
+    round3.check_stream_open_flags(ctx, "R1.9")
+    round3.check_reinit_ignored(ctx, "R1.9")
 
     # ---- R1.3 write_evbuf ----------------------------------------------------------------------
     wf = prog.fn("write_evbuf", OV)
